@@ -20,6 +20,7 @@ def find_omega_general(g_w, twoth, w_x, w_y):
     Furthermore find eta (in radians)
     Soren Schmidt, implemented by Jette Oddershede
     """
+    g_w = np.asarray(g_w, float)
     g_w_n = np.sin(twoth/2) * g_w / np.linalg.norm(g_w, axis=0)
     assert abs(np.dot(g_w_n, g_w_n)-np.sin(twoth/2)**2) < 1e-9, \
         'g-vector must have length sin(theta)'
@@ -66,6 +67,7 @@ def find_omega_quart(g_w, twoth, w_x, w_y):
     Furthermore find eta (in radians)
     Soren Schmidt, implemented by Jette Oddershede
     """
+    g_w = np.asarray(g_w, float)
     g_w_n = np.sin(twoth/2) * g_w / np.linalg.norm(g_w, axis=0)
     assert abs(np.dot(g_w_n, g_w_n)-np.sin(twoth/2)**2) < 1e-9, \
         'g-vector must have length sin(theta)'
@@ -119,6 +121,7 @@ def find_omega_wedge(g_w, twoth, wedge):
     
 
     #Normalize G-vector
+    g_w = np.asarray(g_w, float)
     g_w = g_w/np.sqrt(np.dot(g_w, g_w))
 
     costth = np.cos(twoth)
@@ -167,6 +170,7 @@ def find_omega(g_w, twoth):
     Solves an equation of type a*cos(w)+b*sin(w) = c by the fixpoint method.
     
     """
+    g_w = np.asarray(g_w, float)
     g_w_n = np.sin(twoth/2) * g_w / np.linalg.norm(g_w, axis=0)
     g_g = np.sqrt(np.dot(g_w_n, g_w_n))
     costth = np.cos(twoth)
